@@ -119,3 +119,15 @@ def run(prog, rep, tier='quick', config='default'):
         rep.violation('R18c', 'anchor-lost:row-index-site', detail='anchor lost: no slice access on a row of cells found in peripheral::excel')
     rep.extra['enumerate_sites_examined'] = n
     rep.extra['by_name_getter_sites'] = getters
+
+
+def fixture():
+    import facts
+    import check
+    prog = mir.Program(facts.ensure_fixture())
+    rep = check.Report('C18')
+    index_stability(prog, rep, 'R18a')
+    bad = sorted({o.fn for o in rep.obs if o.status == check.VIOLATION})
+    good = sorted({o.fn for o in rep.obs if o.status == check.OK})
+    want = ['@verif_fixture_pos::bad_header_map_filtered']
+    return {'ok': bad == want and '@verif_fixture_pos::ok_header_map' in good, 'reported': bad, 'expected': want, 'discharged': good}
